@@ -311,7 +311,7 @@ func init() {
 		Imports: "From Akita Require Import Lib.Base C40.Model C40.Exec.",
 		Rule: "each case = engine kind x handler program (component-state writes, Schedule, TickLater, progress-bar updates, port " +
 			"access, CurrentTime) x a set of live-monitor endpoints requested in a tight loop over real HTTP (Monitor.StartServer on " +
-			"127.0.0.1) while Engine.Run executes ~1200-1800 (parallel) / 15000-22000 (serial) events; the scenario runs in a race-instrumented SUBPROCESS " +
+			"127.0.0.1) while Engine.Run executes ~900-1350 (parallel) / 9000-13500 (serial) events; the scenario runs in a race-instrumented SUBPROCESS " +
 			"(GORACE halt_on_error=0 exitcode=0 log_path=...), the race log is parsed into the set of endpoints whose handler frames " +
 			"appear in a report, and the final component results are compared with an unmonitored run in the same subprocess. " +
 			"Directed: every endpoint alone on both engines, the full safe mix, pause/continue storms. Non-trivial: >= 20 requests " +
@@ -391,7 +391,7 @@ func run(raw json.RawMessage) (hx.Case, error) {
 	os.WriteFile(inf, raw, 0o644)
 	self, _ := os.Executable()
 	cmd := exec.Command(self, "c40child", inf, outf)
-	cmd.Env = append(os.Environ(), "GORACE=halt_on_error=0 exitcode=0 log_path="+filepath.Join(dir, "race"))
+	cmd.Env = append(os.Environ(), "GORACE=halt_on_error=0 exitcode=0 atexit_sleep_ms=0 log_path="+filepath.Join(dir, "race"))
 	cmd.Stdout, cmd.Stderr = io.Discard, io.Discard
 	o := obs{}
 	done := make(chan error, 1)
@@ -476,11 +476,11 @@ func gen(r *hx.Rand, tier string) []json.RawMessage {
 	full := []string{"comp", "sched", "tick", "prog", "port", "now"}
 	evs := func(par bool) int {
 		if par {
-			return 1200
+			return 900
 		}
-		return 15000
+		return 9000
 	}
-	singles := []string{"pause", "now", "tick", "inspect", "buffers", "progress"}
+	singles := []string{"now", "tick", "inspect", "buffers", "progress"}
 	if tier == "thorough" {
 		singles = order
 	}
@@ -491,9 +491,9 @@ func gen(r *hx.Rand, tier string) []json.RawMessage {
 		// the mix that must be safe on both engines
 		add(input{Par: par, Prog: full, Reqs: []string{"pause", "state", "continue", "buffers"}, Events: evs(par), Spin: 1000})
 	}
-	add(input{Par: true, Prog: full, Reqs: []string{"now", "inspect", "pause", "tick", "inspect", "buffers", "continue", "state"}, Events: 1200, Spin: 1000})
-	add(input{Par: true, Prog: []string{"comp", "sched", "tick", "port", "now"}, Reqs: []string{"progress", "inspect", "now", "tick"}, Events: 1200, Spin: 1000})
-	add(input{Par: false, Prog: []string{"sched", "port", "now"}, Reqs: []string{"inspect", "progress", "buffers", "state"}, Events: 15000, Spin: 1000})
+	add(input{Par: true, Prog: full, Reqs: []string{"now", "inspect", "pause", "tick", "inspect", "buffers", "continue", "state"}, Events: 900, Spin: 1000})
+	add(input{Par: true, Prog: []string{"comp", "sched", "tick", "port", "now"}, Reqs: []string{"progress", "inspect", "now", "tick"}, Events: 900, Spin: 1000})
+	add(input{Par: false, Prog: []string{"sched", "port", "now"}, Reqs: []string{"inspect", "progress", "buffers", "state"}, Events: 9000, Spin: 1000})
 	n := 1
 	if tier == "thorough" {
 		n = 16
